@@ -83,7 +83,11 @@ def hb_per_device_cases(r, thorough):
         r.shuffle(order)
         for i in order:
             blocks.append(block(r, 'fp', 51, own_addr(src0, i), gf_request(126993, 0xffffffff, r.choice([0, 100, 500])), wait=False))
-        cases.append(case(cfg, ops_of(blocks) + ['T %d' % (max(ivs) + 1500), 'P', 'T 3', 'P']))
+        # "turn off" (interval 0) is not allowed for the heartbeat: refused, and the scheduled heartbeats go on (seed C12-15)
+        victim = r.randrange(ndev)
+        blocks.insert(len(blocks) - 1, block(r, 'fp', 52, own_addr(src0, victim), gf_request(126993, 0, 0xffff), wait=False))
+        tail = ['T %d' % (max(ivs) + 1500), 'P', 'T 3', 'P', 'T %d' % (max(ivs) + 1500), 'P']
+        cases.append(case(cfg, ops_of(blocks) + tail))
     return cases
 
 
@@ -311,6 +315,24 @@ def gen(seed, tier):
         r.shuffle(blocks)
         for k in range(0, len(blocks), 9):
             cases.append(case(cfg, ops_of(blocks[k:k + 9])))
+
+    # F3. a request for 60928 (answered by an address claim that the library delays by 2 ms) while an ISO-TP transmission of the same device
+    #     is open and ends - by the peer's EndOfMsgAck / Abort, or with the last BAM packet - before the claim has gone out: the claim must
+    #     still be sent (seed C09-14: the "something is pending" flag cleared by the end of the transfer)
+    from nodegen import tp_cm
+    for _ in range(8 if not thorough else 120):
+        src = r.choice([22, 100])
+        cfg = node(src=src)
+        data = bytes(r.randrange(256) for _ in range(r.choice([9, 14, 20]))).hex()
+        rq = block(r, 'fp', 51, src, gf_request(60928), wait=False)        # ['M', R, R, 'P']
+        kind = r.choice(['ack', 'abort', 'bam'])
+        if kind == 'bam':
+            ops = ['S 0 6 130816 15 255 1 %s' % data, 'T 51', 'P', 'T 51'] + ['' if o == 'M' else o for o in rq[:-1]] + ['P', 'T 51', 'P', 'T 3', 'P', 'T 60', 'P', 'T 3', 'P']
+        else:
+            npk = (len(data) // 2 + 6) // 7
+            end = tp_cm(50, src, 19, len(data) // 2, 0, npk, 255, 130816) if kind == 'ack' else tp_cm(50, src, 255, 1, 255, 255, 255, 130816)
+            ops = ['S 0 6 130816 15 50 1 %s' % data, tp_cm(50, src, 17, npk, 1, 255, 255, 130816), 'P', 'T 1'] + ['' if o == 'M' else o for o in rq[:-1]] + [end, 'P', 'T 3', 'P', 'T 3', 'P']
+        cases.append(case(cfg, ops))
 
     # G. random structured messages (shared with the correspondence fuzz)
     for _ in range(40 if not thorough else 1500):
